@@ -962,6 +962,20 @@ impl H {
             // the spending keys must cover the input addresses: try both accounts
             let net = self.st.network().clone();
             let never = self.rng.chance(1, 3);
+            let spent: Vec<(Option<ShieldedPool>, i64)> = p
+                .steps()
+                .iter()
+                .flat_map(|s| s.transparent_inputs().iter().map(|o| {
+                    ud.iter()
+                        .find(|u| u.txid[..] == o.outpoint().hash()[..] && u.oidx == o.outpoint().n())
+                        .map(|u| u.id)
+                        .unwrap_or(-1)
+                }).collect::<Vec<_>>())
+                .map(|id| (None, id))
+                .collect();
+            self.plant_cross_pool_locks(&spent);
+            let pre = dump(&self.st, &accts);
+            let upre = self.udump();
             for a in 0..2 {
                 let usk = self.accts[a].usk.clone();
                 let r = catch(|| {
@@ -977,6 +991,7 @@ impl H {
                     )
                 });
                 if let Some(Ok(txids)) = r {
+                    self.emit_store(&pre, &upre, &spent);
                     if !never {
                         self.pending_t.push(txids[0]);
                     }
@@ -1680,6 +1695,53 @@ impl H {
         }
     }
 
+    /// Before a store: lock (owner 3, 30 blocks) rows of the OTHER received-output tables whose row id
+    /// equals the id of an output about to be spent. Row ids are allocated per table.
+    fn plant_cross_pool_locks(&mut self, spent: &[(Option<ShieldedPool>, i64)]) {
+        let accts = self.acct_ids();
+        let d = dump(&self.st, &accts);
+        let ud = self.udump();
+        let tip = d.tip.unwrap_or(0) as u32;
+        let ids: BTreeSet<i64> = spent.iter().map(|x| x.1).collect();
+        let mut refs: Vec<OutputRef> = vec![];
+        for r in &d.rows {
+            if ids.contains(&r.id) && !spent.contains(&(Some(r.pool), r.id)) && r.lock.is_none() && self.rng.chance(3, 4) {
+                refs.push(r.oref());
+            }
+        }
+        for u in &ud {
+            if ids.contains(&u.id) && !spent.contains(&(None, u.id)) && u.lock.is_none() && self.rng.chance(3, 4) {
+                let mut h = [0u8; 32];
+                h.copy_from_slice(&u.txid);
+                refs.push(OutputRef::new(TxId::from_bytes(h), PoolType::TRANSPARENT, u.oidx));
+            }
+        }
+        for r in refs {
+            let _ = catch(|| self.st.wallet_mut().lock_outputs(&[r], owner(3), BlockHeight::from_u32(tip + 30)));
+            self.bump("cross_pool_lock_planted");
+        }
+    }
+
+    fn emit_store(&mut self, pre: &Dump, upre: &[Urow], spent: &[(Option<ShieldedPool>, i64)]) {
+        let accts = self.acct_ids();
+        let post = dump(&self.st, &accts);
+        let upost = self.udump();
+        let refs: Vec<(ShieldedPool, i64)> = spent.iter().filter_map(|x| x.0.map(|p| (p, x.1))).collect();
+        let tids: Vec<i64> = spent.iter().filter(|x| x.0.is_none()).map(|x| x.1).collect();
+        case(format!(
+            "CStore {} {} {} {} {} {} {}",
+            pre.coq_db(),
+            list(upre.iter().map(|u| u.coq())),
+            pre.tip.map(|t| t + 1).unwrap_or(0),
+            list(refs.iter().map(pid_coq)),
+            list(tids.iter().map(|x| x.to_string())),
+            post.coq_db(),
+            list(upost.iter().map(|u| u.coq()))
+        ));
+        self.ncases += 1;
+        self.bump("store_cases");
+    }
+
     fn op_pending(&mut self, d: &Dump) {
         // a Sapling-only transfer created for real (mock provers) and stored as a pending transaction
         let lock = if self.rng.bool() { Some(LockRequest::new(owner(1 + self.rng.below(2) as u8), 1 + self.rng.below(5) as u32)) } else { None };
@@ -1688,6 +1750,16 @@ impl H {
             // one pending transaction in three never expires (expiry height 0)
             let never = self.rng.chance(1, 2);
             let net = self.st.network().clone();
+            let spent: Vec<(Option<ShieldedPool>, i64)> = p
+                .steps()
+                .iter()
+                .flat_map(|s| s.shielded_inputs().map(|si| si.notes().iter().map(|n| nid(n.internal_note_id())).collect::<Vec<_>>()).unwrap_or_default())
+                .map(|(pl, id)| (Some(pl), id))
+                .collect();
+            self.plant_cross_pool_locks(&spent);
+            let accts = self.acct_ids();
+            let pre = dump(&self.st, &accts);
+            let upre = self.udump();
             let r = catch(|| {
                 zcash_client_backend::data_api::wallet::create_proposed_transactions::<_, _, Infallible, _, Infallible, _>(
                     self.st.wallet_mut(),
@@ -1700,6 +1772,9 @@ impl H {
                     if never { Some(BlockHeight::from_u32(0)) } else { None },
                 )
             });
+            if matches!(r, Some(Ok(_))) {
+                self.emit_store(&pre, &upre, &spent);
+            }
             match r {
                 Some(Ok(txids)) => {
                     if never {
@@ -1794,14 +1869,18 @@ impl H {
         for _ in 0..nops {
             let scan_now = !self.rng.chance(1, 4);
             let accts = self.acct_ids();
-            match self.rng.below(31) {
+            match self.rng.below(34) {
+                32 | 33 => {
+                    let d = dump(&self.st, &accts);
+                    self.op_pending(&d)
+                }
                 25..=27 => {
                     self.op_utxo();
                     if self.rng.bool() {
                         self.op_utxo();
                     }
                 }
-                28 => self.op_shield_store(),
+                28 | 31 => self.op_shield_store(),
                 29 => {
                     self.op_lock_utxo();
                     self.op_lock_utxo();
